@@ -1,5 +1,7 @@
 import PepitVerif.Math.MatricesSem
 import PepitModel.Eval
+import Mathlib.Data.Matrix.Basic
+import Mathlib.LinearAlgebra.Matrix.Trace
 
 /-!
 # Property C02: the primal output is one consistent instance
@@ -116,3 +118,44 @@ end Pepit.C02
 #print axioms Pepit.C02.evalGF_gram
 #print axioms Pepit.C02.evalGFRat_sound
 #print axioms Pepit.C02.objective_is_min_metric
+
+/-! ## the leaf points reproduce the (projected) Gram matrix -/
+
+namespace Pepit.C02
+open Matrix
+
+variable {n : Type*} [Fintype n] [DecidableEq n]
+
+/-- **Gram factor**: `_eval_points_and_function_values` takes `G = V diag(λ) Vᵀ` (`numpy.linalg.eigh`),
+clips `λ⁺ = max(λ, 0)`, forms `A = diag(√λ⁺) Vᵀ` and keeps the `R` factor of `A = Q R`
+(`numpy.linalg.qr`, `QᵀQ = 1`).  Column `i` of `R` is the value of leaf point `i`.  Then the matrix of
+inner products of the evaluated leaf points, `RᵀR`, is `V diag(λ⁺) Vᵀ` — the projection of the solver's
+Gram matrix onto the PSD cone (and `G` itself when `λ ≥ 0`).  The contracts of `eigh` / `qr` are the
+hypotheses. -/
+theorem gram_factor (V Q R : Matrix n n ℝ) (lamp s : n → ℝ)
+    (hs : ∀ i, s i * s i = lamp i)                       -- s = √λ⁺
+    (hQ : Qᵀ * Q = 1) (hQR : Q * R = diagonal s * Vᵀ) :
+    Rᵀ * R = V * diagonal lamp * Vᵀ := by
+  have h1 : Rᵀ * R = (Q * R)ᵀ * (Q * R) := by
+    rw [transpose_mul, Matrix.mul_assoc, ← Matrix.mul_assoc Qᵀ Q R, hQ, Matrix.one_mul]
+  have hd : diagonal s * diagonal s = diagonal lamp := by
+    rw [diagonal_mul_diagonal]; congr 1; funext i; exact hs i
+  rw [h1, hQR, transpose_mul, transpose_transpose, diagonal_transpose, Matrix.mul_assoc,
+    ← Matrix.mul_assoc (diagonal s) (diagonal s) Vᵀ, hd, Matrix.mul_assoc]
+
+/-- entry form: `⟪value of leaf i, value of leaf j⟫ = (V diag(λ⁺) Vᵀ) i j` -/
+theorem leaf_inner_products (V Q R : Matrix n n ℝ) (lamp s : n → ℝ) (hs : ∀ i, s i * s i = lamp i)
+    (hQ : Qᵀ * Q = 1) (hQR : Q * R = diagonal s * Vᵀ) (i j : n) :
+    (∑ k, R k i * R k j) = (V * diagonal lamp * Vᵀ) i j := by
+  rw [← gram_factor V Q R lamp s hs hQ hQR]
+  simp [Matrix.mul_apply, Matrix.transpose_apply]
+
+/-- when the solver's Gram matrix is already PSD (`λ ≥ 0`, so `λ⁺ = λ`) the leaf points reproduce `G` itself -/
+theorem leaf_inner_products_psd (G V Q R : Matrix n n ℝ) (lam s : n → ℝ) (hs : ∀ i, s i * s i = lam i)
+    (hG : G = V * diagonal lam * Vᵀ) (hQ : Qᵀ * Q = 1) (hQR : Q * R = diagonal s * Vᵀ) :
+    Rᵀ * R = G := by
+  rw [hG]; exact gram_factor V Q R lam s hs hQ hQR
+
+end Pepit.C02
+
+#print axioms Pepit.C02.gram_factor
